@@ -328,3 +328,9 @@ def run(ck, prog, ctx):
     ck.rule("ERR", "every call of a crate function returning Result<_, HpoError> propagates the error (`?` / return / match), panics on it (unwrap / expect), or is a listed documented exception; none replaces it by a default")
     from engines import check_error_discipline
     check_error_discipline(ck, "ERR", prog, r"^src/parser/binary|^src/annotations/|^src/term/internal\.rs$", allowed=[(r"^Ontology::hpo$", r"try_new$", "documented: Ontology::hpo answers None for an id that is not in the ontology")], floor=2)
+
+    # ---- what the decoder stored is what the accessors hand out: a flag getter is that flag alone
+    ck.rule("GETTER", "an accessor `f()` of HpoTermInternal returns the field `f` (a flag getter: that flag and nothing else)")
+    from engines import check_getters
+    check_getters(ck, "GETTER", prog, r"^src/term/internal\.rs$", floor=5)
+
